@@ -54,7 +54,7 @@ class C13(Check):
             pass
 
     def strata(self, tier):
-        s = [('S-clean', 3), ('S-fault', 3), ('S-noclear', 3), ('S-opname', 2), ('S-shared', 2), ('S-file', 1),
+        s = [('S-clean', 3), ('S-fault', 3), ('S-noclear', 3), ('S-opname', 2), ('S-shared', 3), ('S-file', 1),
              ('S-all', 2), ('S-reuse', 2), ('S-jax', 1), ('S-torch', 1)]
         if tier == 'thorough':
             s.append(('S-fortran', 1))     # f2py builds: several models compiled to extension modules in one process
@@ -74,6 +74,30 @@ class C13(Check):
             spec['nodes'] = {n: spec['nodes'][n] for n in keep}
             spec['edges'] = [e for e in spec['edges'] if e[0].split('/')[0] in keep and e[1].split('/')[0] in keep]
             pool = 'P'
+            if wid == 2 and rng.random() < 0.6:
+                # this workflow's operators are DERIVED (update_template: another name, one constant re-declared) from the very
+                # operator objects the other workflow compiles: whatever a compilation leaves on the base must not be inherited
+                newops = {}
+                for k_, o_ in spec['ops'].items():
+                    c0 = (models.LIB[o_['lib']]['const'] or [None])[0]
+                    if c0 is None or o_.get('decl') or models.LIB[o_['lib']].get('array'):
+                        newops[k_] = o_
+                        continue
+                    val = rng.randint(1, 40) / 16
+                    d_ = copy.deepcopy(o_)
+                    d_.update({'name': o_['name'] + '_d', 'derive_var': {c0: val},
+                               'derived_from': {'key': k_, 'name': o_['name'], 'defaults': copy.deepcopy(o_['defaults'])}})
+                    d_['defaults'][c0] = val
+                    newops[k_ + '_d'] = d_
+                ren = {k_: (k_ + '_d' if k_ + '_d' in newops else k_) for k_ in spec['ops']}
+                spec['ops'] = newops
+                nts = {}
+                for kt, nt in spec['nts'].items():
+                    nts[kt + '_d'] = {'name': nt['name'] + '_d', 'ops': [ren[o] for o in nt['ops']],
+                                      'var': {ren[o]: v for o, v in nt.get('var', {}).items()}}
+                spec['nts'] = nts
+                spec['nodes'] = {n: kt + '_d' for n, kt in spec['nodes'].items()}
+                _rename_edges(spec)
         else:
             libs = ('lin', 'sat', 'osc', 'leak', 'linl')
             tab = stratum in ('S-opname', 'S-all') and rng.random() < 0.35
